@@ -163,11 +163,11 @@ def expr_of(src: str) -> ast.expr:
     return ast.parse(src, mode="eval").body
 
 
-def same_relation(found: ast.AST, expected_src: str) -> tuple[bool | None, dict]:
-    """compare a condition with the expected one in relational normal form.
+def same_relation(found: ast.AST, expected_src: str, neg: bool = False) -> tuple[bool | None, dict]:
+    """compare a condition (its negation when `neg`) with the expected one in relational normal form.
     True: equal; False: same terms but different relation (operator/constant/polarity);
     None: different terms (unknown shape)"""
-    f = N.boolean_nf(substitute_len(found))
+    f = N.boolean_nf(substitute_len(found), neg=neg)
     e = N.boolean_nf(substitute_len(expr_of(expected_src)))
     slot = {"found": N.nf_str(f), "expected": N.nf_str(e)}
     if N.nf_key(f) == N.nf_key(e):
